@@ -104,6 +104,9 @@ func runOne(t *testing.T, c *sim.Case, runSeed uint64, tape []int64, replay, tra
 	synctest.Test(t, func(t *testing.T) {
 		res, rec = sim.ExecuteRec(c, w, runSeed, tape, replay, trace)
 	})
+	if pc, ok := w.(sim.PostChecker); ok && res != nil {
+		pc.Post(res)
+	}
 	return
 }
 
@@ -176,7 +179,7 @@ func doExplore(t *testing.T, job *Job) {
 		}
 		seed := runSeedFor(job.BaseSeed, idx)
 		c := def.Generate(sim.NewRng(seed), job.Property, job.Tier, idx)
-		res, rec := runOne(t, c, seed, nil, false, false)
+		res, rec := runOne(t, c, seed, nil, false, job.Trace)
 		res.Index = idx
 		ck.Runs++
 		ck.Steps += res.Steps
@@ -221,7 +224,7 @@ func doExplore(t *testing.T, job *Job) {
 			ck.Samples = append(ck.Samples, b)
 		}
 		if job.Variant == "determinism" {
-			emit(map[string]any{"t": "h", "i": idx, "h": res.TraceHash, "steps": res.Steps})
+			emit(map[string]any{"t": "h", "i": idx, "h": res.TraceHash, "steps": res.Steps, "trace": res.Trace})
 		}
 		if res.HarnessError != "" {
 			emit(map[string]any{"t": "harness_error", "index": idx, "run_seed": seed, "error": res.HarnessError, "case": c, "tape": rec})
